@@ -835,6 +835,8 @@ def c16_plan(pid, tier, seed, t0):
     ops = 1500 if tier == "quick" else 5000
     for k in range(stress_runs):
         jobs.append(("stress", [conc, "stress", str([2, 4, 16][k % 3]), str(ops), str(seed * 1000 + k)]))
+    for k in range(12 if tier == "quick" else 300):
+        jobs.append(("burst", [conc, "burst", str([2, 4, 8][k % 3]), str(3000 if tier == "quick" else 20000), str(seed * 31 + k)]))
     first_runs = 200 if tier == "quick" else 10000
     for k in range(first_runs):
         spins = rnd.choice([0, 0, 1000, 10000, 100000, 1000000, 3000000])
@@ -843,6 +845,8 @@ def c16_plan(pid, tier, seed, t0):
         env_t = dict(o.ENV, TSAN_OPTIONS="halt_on_error=1 exitcode=66")
         for k in range(10 if tier == "quick" else 60):
             jobs.append(("tsan-stress", [tsan, "stress", str([4, 8][k % 2]), "400", str(seed * 77 + k)]))
+        for k in range(4 if tier == "quick" else 40):
+            jobs.append(("tsan-burst", [tsan, "burst", str([2, 4][k % 2]), "500", str(seed * 13 + k)]))
         for k in range(20 if tier == "quick" else 200):
             jobs.append(("tsan-first", [tsan, "first", str(rnd.choice([4, 8])), str(rnd.choice([0, 10000, 300000])), str(k)]))
     else:
@@ -894,7 +898,9 @@ def c16_plan(pid, tier, seed, t0):
         "rule": "four observers. (1) a crate of Send+Sync obligations for Expression, Runtime, Variable, Rcvar, Ast, JmespathError, Box<dyn Function> must "
         "compile against the sync build. (2) native stress: 2/4/16 threads share Arc'd compiled expressions and Arc'd input values, start on a barrier and "
         "perform mixed compile (through the shared default runtime) / clone / search / drop operations; every result is compared with the sequential "
-        "result computed beforehand; shared inputs must print unchanged. (3) first-use race: the process is re-executed; all threads' first library "
+        "result computed beforehand; shared inputs must print unchanged; 'churn' operations compile never-seen texts whose tree and result are known a "
+        "priori; 'burst' rounds release all threads through a spin barrier into a search of the SAME shared expression at the same instant, each on "
+        "its own document. (3) first-use race: the process is re-executed; all threads' first library "
         "call is a compile released by one barrier while the verif-hooks delay point widens the window between Runtime::new() and "
         "register_builtin_functions(); every thread then calls all 26 built-ins and must agree with the sequential results. (4) the same workload "
         "(reduced) under Miri with %d scheduler seeds (data-race detector, borrow model) and under ThreadSanitizer (-Zbuild-std). Non-trivial / "
